@@ -819,7 +819,10 @@ def run(ctx):
     # ------------------------------------------------------------------
     # A. implementation vs Lean model vs exact oracle, all observables
     # ------------------------------------------------------------------
-    reqs = [f"net {c.n} {enc_adj(c.A)} {enc_mat(c.res)}" for c in cases]
+    # networks constructed without `adjacency=` go through the model of that constructor branch
+    # (`defaultAdj`: links = non-zero pattern of the resistances)
+    reqs = [f"netd {c.n} {enc_mat(c.res)}" if c.adj_from_res
+            else f"net {c.n} {enc_adj(c.A)} {enc_mat(c.res)}" for c in cases]
     model = pdriver(ctx.pid, reqs)
     bad = []
     nobs = 0
@@ -924,7 +927,9 @@ def run(ctx):
     for _ in range(90 if quick else 900):
         c = rng.choice(pool)
         hcases.append((c, gen_history(c, rng, rng.randrange(2, 9 if quick else 14))))
-    hreqs = [" ".join(["hist", str(c.n), enc_adj(c.A), enc_mat(c.res)] + [enc_op(op) for op in ops])
+    hreqs = [" ".join((["histd", str(c.n), enc_mat(c.res)] if c.adj_from_res
+                       else ["hist", str(c.n), enc_adj(c.A), enc_mat(c.res)])
+                      + [enc_op(op) for op in ops])
              for c, ops in hcases]
     hans = pdriver(ctx.pid, hreqs)
     hbad = []
